@@ -12,775 +12,1053 @@ Definition show_fres (r : fres) : string :=
   end.
 Definition check (rs : list rune) : string := digest (show_fres (format_res rs)).
 Definition full (rs : list rune) : string := show_fres (format_res rs).
-Eval vm_compute in ("<<<M5>>>" ++ check (runes_of_ascii "MetaData  asx {char[] MetaDataX ,
-lengthOf Z9_	, crc
-    Foo ,char[ 4294967296]
-BodyLength , Foo leftPad `doc`, tag // a // b
-u128 , } root packet
-    stringy { // trailing space 
-match Header as
-    repeatCount	{ [ ""{,}""] :
-Header
-/// triple
-//
-,255 :repeatCount , 00 :pack, 1 : trueish
-    , 7
-    : A }
+Eval vm_compute in ("<<<M1657>>>" ++ check (runes_of_ascii "
+// top
+
+options  
+  // c0
+      {  // c1a
+	// c1b
+
+LittleEndian 
+// c2
+  =	// c3a
+    // c3b
+	false 
+
+// c4
+; ArrayPrefixLenType=  // c7a
+
+	// c7b
+u8  
+  // c8
+;// c9
+FixedStringPadFromLeft	// c10a
+
+	// c10b
+	=// c11
+
+  true 
+;	// c13
+    FixedStringPadChar 
+        // c14
+
+	=
+'0' 	 // c16
+      ;
+
+    // c17
+		}  // c18
+	packet 
+    // c19
+  Heartbeat{ 
+	// c21
+	  string	lastPx
+	, uint8  // c25
+  	Qty
+, 
+    // c27
+	i64 	 // c28a
+    // c28b
+    Acct 
+
+    // c29
+	  ,  
+      // c30
+    char[// c31
+
+4
+
+    ]  // c33
+	Ref	// c34
+		, 	 // c35
+  	} packet // c37
+Fill  // c38
+      {	// c39
+
+uint8 	 // c40a
+  	// c40b
+	Ref 	 // c41
+    ,	Heartbeat 	 // c43
+  , 	 // c44a
+      // c44b
+	f32  // c45
+  OrderId, // c47
+		repeat	f32 	 // c49
+x 
+      // c50
+,// c51a
+  // c51b
+}	root
+packet Order
+// c55
+    {// c56a
+      // c56b
+      zchar[
+    // c57
+  2 // c58
+]// c59a
+
+// c59b
+	OrderId ,  
+      // c61
+	zchar[ // c62a
+
+// c62b
+2 ] 
+    // c64
+    Acct 
+// c65
+,
+// c66
+	zchar[	// c67
+	1  ] // c69
+Note // c70a
+	// c70b
+  ,
+    // c71
+  zchar[ 
+        // c72
+	  9 	 // c73
+] Qty // c75a
+	  // c75b
+
+  , // c76a
+    // c76b
+    string price// c78
+  , // c79
+	string // c80a
+
+// c80b
+  tag7 
+	// c81
+, 	 // c82a
+	// c82b
+u32 
+
+    // c83
+
+	x
+    // c84
+  ,  // c85a
+	// c85b
+match  // c86
+	  x as 	 // c88
+	Body  // c89
+
+{  // c90
+123  // c91
+  :  // c92a
+    	// c92b
+Fill , 	 // c94a
+	// c94b
+112 // c95a
+	// c95b
+  :// c96a
+// c96b
+  Heartbeat
+	, 	 // c98
+  } // c99
+  ,	// c100
+  u32 seqNo
+    // c102
+	@calculatedFrom( 	 // c103
+	  ""CRC32"" 	 // c104
+    )  
+      // c105
+
+  ,
+    // c106
+    }  // c107
+")).
+Eval vm_compute in ("<<<M1826>>>" ++ check (runes_of_ascii "// a // b
+    	packet
+
+stringy
+
+{ 
+string
+    zchar ,
+repeat
+T	,  match	u
+as charz { 007
+//x
+	:
+	    //	t
+	// @lengthOf(
+float	// trailing space 
+    ,  ""\" ++ [233]%N ++ runes_of_ascii """ :
+    Logon""a	b""
+: 
+	    //	t
+
+//	t
+	pack
+    ,  } ,
+	match uint8x  as
+    // " ++ [27880; 37322]%N ++ runes_of_ascii "
+    roots  {	1
+// `tick` ""quote"" 'q'
+  :
+len ,
+} 
+      //x
+  // " ++ [27880; 37322]%N ++ runes_of_ascii "
     ,
-T
-    {Z9_
+	}	packet
+    zchar
+	{
+    roots 
+options1
+    //x
+    `// not a comment`  ,int64
+As , i16
+float
+@lengthOf(falsey 
+        // " ++ [27880; 37322]%N ++ runes_of_ascii "
+
+  ) 
+`a\`	,
+int64 
+msg_type `tab	here` ,
+@tag(
+	0
+	// `tick` ""quote"" 'q'
+  ) repeat
+uint8x
+
+,@lengthOf( x
+	) 
+repeat metadata,
+
+    zchar[0
+]
+int,
+uint64 zchar ,zchar[
+7  // " ++ [27880; 37322]%N ++ runes_of_ascii "
+  ]
+    msg_type ,
+@calculatedFrom( 
+        /// triple
+	  // " ++ [27880; 37322]%N ++ runes_of_ascii "
+  """ ++ [28040; 24687]%N ++ runes_of_ascii """ )  crc
+,
+}root packet zchar {repeat leftPad
+, } 
+packet
+	A  {  @lengthOf(
+
+    string_
+	)
+
+x  @lengthOf( options1 
+)`two words` 
+,string
+
+    len,
+}  packet
+
+    falsey  {
+
+i64_ @calculatedFrom( ""{,}"" 
+)
+	, repeat string chars 
+, 
+zchar[ 
+7	] calculatedFrom  ,Header{
+	char u`two words`,
+
+repeat
+    char[]// c
+
+	tag `say ""hi""`
+
+    , Z9_ @lengthOf( 
+T	) `line1
+line2`
+	,
+} 
+,msg_type @calculatedFrom(
+    ""// no comment"" )
+,
+
+    @rightPad
+
+(// packet A { u8 x, }
+	'\x00' 
+) @lengthOf(
+	asx
+
+    )falsey
+
+    ,}// packet A { u8 x, }
+ 
+")).
+Eval vm_compute in ("<<<M1728>>>" ++ check (runes_of_ascii "
+packet pack {@lengthOf(Foo 
+
+// c
+    ) asx@lengthOf(
+	_x
+)  /// triple
+  ,
+    u8
+    x_y_z 
+`two words`
+,
+repeat
+
+    zchar[0
+
+    ] roots
+	`
+`
+    // `tick` ""quote"" 'q'
+      ,
+    lengthOf@calculatedFrom(
+
+    ""abc""
+
+    )
+,	@tag(  3 )
+
+@rightPad
+    (
+
+' '
+
+    )
+
+@calculatedFrom( ""1""
+//x
+    	// " ++ [27880; 37322]%N ++ runes_of_ascii "
+)
+	repeat
+    uint64
+	i64_	// trailing space 
+`say ""hi""`// @lengthOf(
+      ,@tag(
+007
+    )
+    match
+	roots 
+as
+    float
+
+    { 
+""a	b""
+
+: lengthOf  , [
+    1	, // @lengthOf(
+	""\n""  ,""a\""b""	,""\" ++ [233]%N ++ runes_of_ascii """	,
+
+""1"" 
+, 
+42	] :msg_type	,
+""" ++ [128512]%N ++ runes_of_ascii """  : Foo
+	}
+
+,T 	 //x
+{ match
+	Header
+
+as trueish {  [
+    // `tick` ""quote"" 'q'
+    // @lengthOf(
+    0
+	, 3  // @lengthOf(
+
+	,	""{,}"" 
+, 
+""1"" , 00
+    , 
+0123456789	, 
+""// no comment""
+
+]
+
+:  As
+
+,
+} ,},
+    repeat	char[ 10 ] o
+
 `
 ` ,
-} ,
-    int16 o
-@calculatedFrom(
-""it's""
-) `line1
-line2`	, match zchar
-as As{ ""CRC32"" :	a1, 42: Header [ 10
+
+@calculatedFrom( 
     //
-    ] : zchar // trailing space 
+  ""`tick`"" 	 //x
+      )
+    repeat
+
+crc
+{repeatCount o  ,u8x
+As  ,
+},  }
+
+packet  pack
+    {
+
+@calculatedFrom(""" ++ [233]%N ++ runes_of_ascii "t" ++ [233]%N ++ runes_of_ascii """  )
+    u32
+    f32a  ,
+} MetaData  float {
+u32
+
+    options1
 ,
-    }// " ++ [128512]%N ++ runes_of_ascii " emoji
-, @tag( 42 )repeat i64_{
+
+}packet
+	f32a{ } ")).
+Eval vm_compute in ("<<<M70>>>" ++ check (runes_of_ascii "packet pack { @lengthOf(
+Foo
     // c
-    char[00 ] _x `{ , }` ,
-}
-,repeat //x
-char[] uint8x
-`crlf
-line` ,@leftPad
-(	'\x00'
-    ) @tag( 7 )
-    int32
-// a // b
-// @lengthOf(
-repeatCount
-    @calculatedFrom(
-""x y"" )
-`// not a comment` , u32 zchar
-    `
-` , repeat stringy { i8i8 lengthOf
-, } , // packet A { u8 x, }
-@calculatedFrom(  ""abc"" ) @lengthOf( tag ) @lengthOf( /// triple
-rootA )  char[3	] // c
-rootA`" ++ [233]%N ++ runes_of_ascii "` ,// c
-}MetaData crc
+    )
+    asx @lengthOf( _x ) /// triple
+, u8	x_y_z `two words` ,repeat
+    zchar[0
+    ] roots `
+`
+    // `tick` ""quote"" 'q'
+    , lengthOf @calculatedFrom( ""abc""
+) ,
+@tag( 3 ) @rightPad	( ' ')@calculatedFrom(
+""1""
+//x
+// " ++ [27880; 37322]%N ++ runes_of_ascii "
+)
+repeat uint64 i64_ // trailing space 
+`say ""hi""` // @lengthOf(
+,	@tag( 007 ) match roots as float {	""a	b""
+    : lengthOf,
+    [1, // @lengthOf(
+""\n""
+,
+""a\""b"" , ""\" ++ [233]%N ++ runes_of_ascii """ ,  ""1"",
+    42 ]: msg_type, """ ++ [128512]%N ++ runes_of_ascii """: Foo} ,T//x
 {
-float32
-asx `" ++ [233]%N ++ runes_of_ascii "` ,	string i64_// " ++ [128512]%N ++ runes_of_ascii " emoji
-,
-    }
-root packet Packet
-    //
-    {charz @lengthOf( zchar) ,	f32
-    f32a `{ , }` // a // b
-, i64 matchKey @lengthOf( leftPad )
-    , string trueish, @leftPad (  '0')
-    // trailing space 
-    tag@lengthOf( // a // b
-string_ ) `doc` , match stringy
-// @lengthOf(
-// @lengthOf(
-as calculatedFrom
-    { [
-0123456789 ]: repeatCount
-//	t
-//
-,} ,// trailing space 
-char[
-3]
-Header ,
-int64 MetaDataX
-,	@leftPad( ) len { packetx @lengthOf(chars ) `` ,
-    }, @rightPad ( '0'
-    )  x_y_z
-,
-} options{ rootA
-// packet A { u8 x, }
-//x
-= '0'
-; Foo =char
-    ;A
-    = zchar[ 0123456789 ]
-// " ++ [27880; 37322]%N ++ runes_of_ascii "
-//x
-;packetx = """ ++ [233]%N ++ runes_of_ascii "t" ++ [233]%N ++ runes_of_ascii """
-float = true } //x")).
-Eval vm_compute in ("<<<M1528>>>" ++ check (runes_of_ascii "packet _x {
-    leftPad `it's`,
-    match Logon as matchKey {
-        ""packet"" : stringy,
-        3 : u,
-        //
-        ""1"" : Pad,
-    },
-    float32 Z9_ @lengthOf(i8i8) `" ++ [233]%N ++ runes_of_ascii "`,
-    @tag(3)
-    match As as Pad {
-        """" : chars,
-        ""x y"" : i64_,
-    },
-    @calculatedFrom(""it's"")
-    @leftPad(' ')
-    zchar[0123456789] falsey,
-    match A as packetx {
-        [42] : matchKey,
-    },
-    @leftPad(' ')
-    match x as a1 {
-        ""packet"" : a1,
-        10 : pack,
-        ""{,}"" : u8x,
-        [007, 00] : trueish,
-        ""x y"" : pack,
-        """ ++ [233]%N ++ runes_of_ascii "t" ++ [233]%N ++ runes_of_ascii """ : matchKey,
-    },
-    @leftPad('0')
-    uint8x u,
-    zchar[3] u ``,
-    @rightPad(' ')
-    repeat _x ``,
-}
-
-MetaData Foo {
-    a1 Z9_,
-    options1 T,
-    u32 u8x `crlf
-        line`,
-    metadata falsey,
-    lengthOf x_y_z,
-}
-
-packet calculatedFrom {
-    @tag(3)
-    string A,
-    match leftPad as a1 {
-        //	t
-        0123456789 : calculatedFrom,
-    },
-    match crc as body {
-        00 : _x,
-    },
-    o @calculatedFrom(""x y""),
-}
-
-packet T {
-}
-
-packet Logon {
-    @leftPad('\x00')
-    As @calculatedFrom(""a	b"") `line1
-        line2`,
-    pack lengthOf,
-}// `tick` ""quote"" 'q'")).
-Eval vm_compute in ("<<<M1701>>>" ++ check (runes_of_ascii "root packet crc {
-    @lengthOf(As)
-    @calculatedFrom(""\" ++ [233]%N ++ runes_of_ascii """)
-    zchar[4294967296] MetaDataX `doc`,/// triple
-    rootA @calculatedFrom(""it's""),
-    @tag(65535)
-    @tag(7)
-    @tag(00)
-    len @lengthOf(A) `two words`,
-    // trailing space 
-    // " ++ [128512]%N ++ runes_of_ascii " emoji
-    string rootA @lengthOf(pack),
-    // " ++ [128512]%N ++ runes_of_ascii " emoji
-    // trailing space 
-    repeat zchar,
-    @calculatedFrom(""abc"")
-    @leftPad('\x00')
-    @rightPad()
-    match x_y_z as Z9_ {
-        ""it's"" : Logon,
-        ""x y"" : Packet,
-        ""abc"" : trueish,
-        4294967296 : repeatCount,
-        """ ++ [128512]%N ++ runes_of_ascii """ : x_y_z,
-    },
-    char[10] stringy `it's`,
-    @leftPad('\x00')
-    rootA @lengthOf(i64_),
-}
-
-MetaData falsey {
-    Packet repeatCount `tab	here`,
-}
-
-MetaData string_ {
-    float64 roots `line1
-        line2`,
-    char As `
-        `,
-    zchar[65535] falsey `a\`,
-    A T,
-    _x metadata,
-}
-
-packet _x {
-    zchar[255] string_ @lengthOf(u128) `{ , }`,
-}
-
-root packet Packet {
-    repeat lengthOf,
-}")).
-Eval vm_compute in ("<<<M1640>>>" ++ check (runes_of_ascii "options {
-    string_ = false;
-    falsey = char[4294967296];
-}
-
-packet zchar {
-    match float as len {
-        [""" ++ [233]%N ++ runes_of_ascii "t" ++ [233]%N ++ runes_of_ascii """] : matchKey,
-        3 : u,
-        [4294967296, ""1""] : zchar,
-    },
-}
-
-MetaData T {
-}
-
-packet packetx {
-    uint16 uint8x @calculatedFrom(""it's""),
-    stringy {
-        i16 crc `{ , }`,
-    },
-    zchar[00] x,
-    zchar {
-        uint64 tag,
-        zchar f32a `say ""hi""`,
-        uint32 A `{ , }`,
-        match _x as falsey {
-            [007, """ ++ [128512]%N ++ runes_of_ascii """] : matchKey,
-            // " ++ [128512]%N ++ runes_of_ascii " emoji
-            [0123456789, 3] : T,
-            // " ++ [128512]%N ++ runes_of_ascii " emoji
-            // `tick` ""quote"" 'q'
-            1 : Foo,
-        },// trailing space 
-    },
-    A,
-    zchar[4294967296] string_ @lengthOf(float),
-    match rootA as As {
-        [
-            255, 0123456789, ""it's"", """ ++ [233]%N ++ runes_of_ascii "t" ++ [233]%N ++ runes_of_ascii """, ""{,}"",
-            ""abc"", """ ++ [233]%N ++ runes_of_ascii "t" ++ [233]%N ++ runes_of_ascii """
-        ] : int,
-        4294967296 : tag,
-    },
-}")).
-Eval vm_compute in ("<<<M209>>>" ++ check (runes_of_ascii "packet calculatedFrom { // a // b
-string charz
-`two words`
-//	t
-//x
-, } packet stringy {
-@lengthOf(msg_type
-)	crc
-    // " ++ [128512]%N ++ runes_of_ascii " emoji
-    , @leftPad
-(	'0')crc @lengthOf(
-u128 //	t
-) ,@leftPad(
-    ' '
-)match
-x_y_z as
-rootA { [// @lengthOf(
-3 ,255 ] : int
-    ""1"": o ,// a // b
-10:tag
-, // c
-10// " ++ [128512]%N ++ runes_of_ascii " emoji
-: Header
-    ,3 :
-a1,""" ++ [128512]%N ++ runes_of_ascii """ :
-packetx
-    , }
-// packet A { u8 x, }
-// packet A { u8 x, }
-, match
-// " ++ [27880; 37322]%N ++ runes_of_ascii "
-// a // b
-o as x//x
-{  ""a	b"" : u8x ,} ,  @rightPad () repeat
-u packetx
-,
-    T // " ++ [27880; 37322]%N ++ runes_of_ascii "
-,repeat
-Logon ,	T{repeat
-x_y_z , // a // b
-i8 crc
-`two words` ,
-char[] calculatedFrom
-    @calculatedFrom(""x y""
-) , } , roots calculatedFrom,
-@lengthOf(
-asx)  repeat x_y_z{ T
-matchKey, } , }
-options { float
-=char[1 ]
-    ;
-    msg_type // c
-=i8 x =
-//
+    match
+Header
+as trueish
+{ [
 // `tick` ""quote"" 'q'
-zchar[ 7] ; f32a =""\n""}
-")).
-Eval vm_compute in ("<<<M93>>>" ++ check (runes_of_ascii "packet float { char[]
+// @lengthOf(
+0 , 3// @lengthOf(
+, ""{,}"" ,
+""1"" ,
+00  ,
+0123456789
+,
+    ""// no comment"" ]
+:As
+    , }
+    , } , repeat char[
+    10
+]
+o `
+`
+, @calculatedFrom(
+    //
+    ""`tick`"" //x
+) repeat crc {
+    repeatCount o ,
     u8x
-@lengthOf( roots ) ,
-}MetaData leftPad	{ string
-    // `tick` ""quote"" 'q'
-    a1, }root
-packet // " ++ [27880; 37322]%N ++ runes_of_ascii "
-pack { falsey,
-    /// triple
-    match Logon
-as // " ++ [128512]%N ++ runes_of_ascii " emoji
-trueish
-{""packet""
-    : Foo ,"""" : len, 0123456789: i64_ , ""it's"" : packetx
-    ,
-    255
-    : len
-, }
-    , repeat
-As As `" ++ [233]%N ++ runes_of_ascii "` , @tag( 3  ) uint32 a1
-, repeat  zchar[ 4294967296]
-pack	,@leftPad (' ' )  zchar  @lengthOf( string_ ) `// not a comment` , repeat int ,
-repeat
-i8i8 // " ++ [27880; 37322]%N ++ runes_of_ascii "
-{ u64
-    // a // b
-    tag `say ""hi""`	,u8x , char trueish  , repeat // packet A { u8 x, }
-float32
-    stringy `line1
-line2` ,} ,match o
-as	o { 007  : float },
-// packet A { u8 x, }
-// c
-repeat
-    Pad ,
-// " ++ [27880; 37322]%N ++ runes_of_ascii "
-// trailing space 
-}")).
-Eval vm_compute in ("<<<M1662>>>" ++ check (runes_of_ascii "options {
+As, } ,
+} packet pack{@calculatedFrom( """ ++ [233]%N ++ runes_of_ascii "t" ++ [233]%N ++ runes_of_ascii """ )  u32 f32a
+,
 }
-
-packet u8x {
-    string uint8x @calculatedFrom(""{,}"") `crlf
-    line`,
-}
-
-MetaData falsey {
-    Logon packetx `tab	here`,
-}
-
-root packet o {
-    falsey @calculatedFrom(""" ++ [28040; 24687]%N ++ runes_of_ascii """),
-    @tag(0123456789)
-    // `tick` ""quote"" 'q'
-    char[0123456789] u128 @calculatedFrom(""{,}""),
-    @tag(00)
-    @lengthOf(stringy)
-    @tag(4294967296)
-    rootA Header,
-    @lengthOf(As)
-    repeat leftPad `// not a comment`,
-    i8 leftPad @calculatedFrom(""""),
-    @tag(10)
-    zchar[007] packetx @lengthOf(u8x) `" ++ [28040; 24687; 31867; 22411]%N ++ runes_of_ascii "`,
-}
-
-packet options1 {
-    //	t
-    // trailing space 
-    falsey {
-        //	t
-        zchar[3] roots,
-        u32 Header,
-    },// a // b
-}")).
-Eval vm_compute in ("<<<M1114>>>" ++ check (runes_of_ascii "// top
+    MetaData float
+{u32 options1 , }
 packet
+f32a { }
+")).
+Eval vm_compute in ("<<<M362>>>" ++ check (runes_of_ascii "MetaData len
+{i8 _x
+    //	t
+    `` , zchar[ 00 ] tag , roots
+u
+    // `tick` ""quote"" 'q'
+    ,uint16 repeatCount , msg_type tag , } packet x_y_z
+    {
+metadata { i8i8 chars
+,i64
+chars , }
+, repeat u16 asx
+// a // b
+// a // b
+,
+}	packet u8x  { @lengthOf( BodyLength	)	@leftPad(
+// a // b
+//
+)float
+    /// triple
+    `
+` ,
+@calculatedFrom( ""// no comment"" ) float32 // " ++ [128512]%N ++ runes_of_ascii " emoji
+chars`// not a comment` , uint32
+u128 , @tag( 0 )
+int16	tag , leftPad
+    msg_type , // trailing space 
+pack
+    `tab	here` ,
+@lengthOf(
+repeatCount
+// c
+// c
+)zchar[ 4294967296 ] len, i32 packetx`tab	here` , calculatedFrom ,metadata @calculatedFrom(
+""// no comment"" ) , } options { // trailing space 
+options1 = 42 ; i64_
+    // a // b
+    = char[] falsey=
+// packet A { u8 x, }
+//	t
+42 // a // b
+Packet =
+true
+;}
+")).
+Eval vm_compute in ("<<<M1935>>>" ++ check (runes_of_ascii "root packet As {
+}
+
+MetaData Pad {
+    string metadata `// not a comment`,
+}
+
+packet metadata {
+    string charz `a\`,
+    @leftPad(' ')
+    pack @lengthOf(x_y_z),
+    @calculatedFrom(""packet"")
+    match crc as chars {
+        [""packet"", 7] : repeatCount,
+    },
+    Pad @lengthOf(matchKey),
+    @calculatedFrom(""\n"")
+    int64 Z9_ @lengthOf(_x),
+    @lengthOf(repeatCount)
+    repeat float {
+        u128 @lengthOf(zchar),
+        u8 crc,
+    },
+    int64 pack,
+    u128 `it's`,
+    repeat i32 T,//	t
+    @tag(00)
+    rootA @lengthOf(float),
+}
+
+MetaData Header {
+    u32 u,
+    string A `crlf
+    line`,
+    u16 roots `a\`,
+    int16 chars,
+}
+
+packet repeatCount {
+    repeat char[65535] x `line1
+    line2`,
+}")).
+Eval vm_compute in ("<<<M1548>>>" ++ check (runes_of_ascii "MetaData packetx {
+    zchar[7] leftPad `// not a comment`,
+}
+
+packet i64_ {
+    @calculatedFrom("""")
+    // trailing space 
+    // c
+    @lengthOf(x_y_z)
+    @tag(00)
+    repeatCount @calculatedFrom(""1""),
+}
+
+packet falsey {
+    int16 _x @calculatedFrom(""it's""),
+}// @lengthOf(
+
+root packet matchKey {
+    repeat u32 Pad `" ++ [233]%N ++ runes_of_ascii "`,
+    zchar[7] leftPad,
+    match chars as lengthOf {
+        1 : o,
+        42 : chars,
+    },
+    repeat zchar[255] a1,
+    matchKey Packet,
+    f32 tag,
+    // @lengthOf(
+    // trailing space 
+    @calculatedFrom(""a\""b"")
+    @leftPad(' ')
+    @lengthOf(T)
+    stringy @lengthOf(o),
+    packetx i64_,
+}
+/// triple")).
+Eval vm_compute in ("<<<M1801>>>" ++ check (runes_of_ascii "
+options{ LittleEndian=
+    false
+
+; ArrayPrefixLenType =	u8 ; 
+FixedStringPadFromLeft
+	=
+    true;	FixedStringPadChar =	'0'
+
+;} packet	Heartbeat
+    {	string
+lastPx
+, uint8
+Qty
+    ,	i64
+	Acct,
+    char[4
+] Ref
+,  } packet  Fill
+	{
+uint8	Ref ,
+
+    Heartbeat
+
+,
+
+    f32 OrderId , repeat f32 x
+,
+	} root packet  Order
+{
+
+zchar[
+2	] 
+OrderId,
+zchar[ 2	] Acct 
+,
+zchar[
+	1
+]
+
+    Note
+	,zchar[9  ] Qty
+	,
+    string
+    price, string	tag7,
+	u32
+    x ,
+
+match
+x as
+Body	{ 123: 
+Fill
+
+,112:	Heartbeat
+	, }
+
+,u32
+	seqNo	@calculatedFrom(
+
+    ""CR\
+C32""
+    ) 
+,}
+")).
+Eval vm_compute in ("<<<M1678>>>" ++ check (runes_of_ascii "
+MetaData
+
+falsey {	} 
+root
+	packet  // `tick` ""quote"" 'q'
+o 
+{ @tag( 3 // " ++ [128512]%N ++ runes_of_ascii " emoji
+	)@calculatedFrom(
+
+""""
+
+)
+    @lengthOf( pack
+    )char[65535 ] 
+falsey @lengthOf( falsey )  ,
+
+}
+
+    root
+
+packet  roots
+    {  @lengthOf(  chars )
+match
+
+    Logon
+as chars	{
+""`tick`"": 
+charz  
+  // packet A { u8 x, }
+""a\\"" :
+
+Z9_
+
+007
+	:
+trueish
+""CRC32""
+:
+	msg_type
+	,  [ 3 , 3 // `tick` ""quote"" 'q'
+      ,	00 ,	4294967296 ,
+
+0 ,	7
+, //
+  ""x y""
+
+,""\" ++ [233]%N ++ runes_of_ascii """ 
+    //	t
+	] 
+:  metadata
+
+    ,
+""a	b""
+//x
+  // " ++ [27880; 37322]%N ++ runes_of_ascii "
+: crc}
+	, }")).
+Eval vm_compute in ("<<<M1681>>>" ++ check (runes_of_ascii "options
+    {	// c1a
+
+  // c1b
+	LittleEndian  
+  // c2
+  = 	 // c3
+	true  // c4
+
+  ; }	// c6a
+		// c6b
+  packet
+
+    B
+	{  u8	// c10a
+// c10b
+a 
+      // c11
+  , // c12a
+// c12b
+	string	// c13
+s  // c14
+
+,
+	}	// c16
+  root // c17a
+    // c17b
+      packet
+
+// c18
+    P  // c19
+    {
+
+u16 // c21
+	L @lengthOf(
+    B
+)// c25a
+	// c25b
+
+,  // c26a
+
+// c26b
+B  // c27a
+	// c27b
+, 
+  // c28
+		u8 
+  // c29
+    t 	 // c30
+		, // c31
+
+  }	// c32a
+  // c32b")).
+Eval vm_compute in ("<<<M374>>>" ++ check (runes_of_ascii "MetaData BodyLength { zchar[ 65535 ]	As `crlf
+line`
+, u16 charz , body len,
+zchar msg_type ,uint64 metadata
+,}
+root packet //
+matchKey
+    {
+repeat i8i8  `{ , }` ,
+} MetaData a1 { i8i8 Pad`it's`	,
+// trailing space 
+// `tick` ""quote"" 'q'
+int64
+    // " ++ [128512]%N ++ runes_of_ascii " emoji
+    roots `doc` ,
+Foo BodyLength `u8 x,` , } packet	_x
+{ lengthOf
+    {
+pack `" ++ [28040; 24687; 31867; 22411]%N ++ runes_of_ascii "` ,
+string_ // @lengthOf(
+, repeat //
+rootA len , zchar[ 1
+] u8x,} , }
+")).
+Eval vm_compute in ("<<<M1139>>>" ++ check (runes_of_ascii "// top
+MetaData
     // c0
-float
+leftPad
     // c1
 {
     // c2
-@rightPad
+chars
     // c3
-(
+MetaDataX
     // c4
-)
-    // c5
-rootA
-    // c6
-@lengthOf(
-    // c7
-trueish
-    // c8
-)
-    // c9
 ,
+    // c5
+}
+    // c6
+packet
+    // c7
+repeatCount
+    // c8
+{
+    // c9
+char[
     // c10
-stringy
+255
     // c11
-@lengthOf(
+]
     // c12
-matchKey
+uint8x
     // c13
-)
+`" ++ [233]%N ++ runes_of_ascii "`
     // c14
 ,
     // c15
-char[
+}
     // c16
-4294967296
+MetaData
     // c17
-]
+pack
     // c18
-pack
+{
     // c19
-@lengthOf(
+As
     // c20
-uint8x
+Foo
     // c21
-)
+,
     // c22
-,
+}
     // c23
+")).
+Eval vm_compute in ("<<<M1337>>>" ++ check (runes_of_ascii "options 
+{
+
+LittleEndian	=
+
+    true
+; StringPrefixLenType
+=
+u16 ;
+FixedStringPadChar
+	=
+' ' 
+; } packet
+Logon
+{
+
+@leftPad	( '0') char[ 10 ]
+
+tag7
+	,
 }
-    // c24
-root
-    // c25
+root packet
+
+    Ack	{ int32
+Px ,uint16	count ,
+
+string Qty	,
+    string
+    OrderId 
+,string
+Flags, u8
+    x	,  match
+x
+	as
+    Body{
+[	58
+,  169  ] :	Logon
+, } 
+, } ")).
+Eval vm_compute in ("<<<M1310>>>" ++ check (runes_of_ascii "
 packet
-    // c26
-trueish
-    // c27
-{
-    // c28
-repeat
-    // c29
-uint64
-    // c30
-u128
-    // c31
-`line1
-line2`
-    // c32
+A
+	{
+
+u8 a
+	, } packet
+    B 
+{ u16 b
 ,
-    // c33
+	} packet
+    C 
+{	u32 
+c,
+
 }
-    // c34
-")).
-Eval vm_compute in ("<<<M1358>>>" ++ check (runes_of_ascii "options {
-    StringPrefixLenType = u8;
-    ArrayPrefixLenType = u8;
-    FixedStringPadFromLeft = false;
-    FixedStringPadChar = ' ';
-}
-packet Ack {
-    char[] tag7,
-}
-packet Reject {
-    InSym61 {
-        repeat Ack,
-        zchar[4] f1,
-    },
-}
-packet Logout {
-    char[4] clOrdID,
-}
-root packet Cancel {
-    @leftPad(' ') char[10] price,
-    u8 x,
-    u32 venue @lengthOf(Body),
-    match x as Body {
-        [92, 175] : Logout,
-        26 : Reject,
-        144 : Ack,
-    },
-    u16 count @calculatedFrom(""CR\
-C32""),
-}
-")).
-Eval vm_compute in ("<<<M1524>>>" ++ check (runes_of_ascii "  // top
-  MetaData
-    // c0
-    uint8x 
-// c1
-    {
-// c2
-char[] 
-// c3
-  	f32a
+	root
+    packet
+
+    M
+	{u16
+
+    Kc ,
+u16 Kb
+	, u16
+    Ka
+
+,
+match  Kc
+
+    as
+X
+	{9
+:A
+
+    ,
+10
+:B  , } ,match	Kb  as
+Y{	2
+: C
+,  1 :A
+
+,
+
+} ,  match	Ka
+    as
+Z {
+1 :
+B	, 
+}, A 
+,B
+, C
+,
+
+    }")).
+Eval vm_compute in ("<<<M1680>>>" ++ check (runes_of_ascii "// top
+options {
+    // c1
+    f32a = 0
     // c4
-  `// not a comment` 
-    // c5
-  ,
-	// c6
-	float32 
-// c7
+}
 
-roots 
-// c8
-    ,
-    // c9
-  char[ 
-// c10
-	7
-	// c11
-  ] 
+// c5
+packet trueish {
+    // c8
+}
+
+// c9
+MetaData _x {
     // c12
-u8x
-// c13
-  ,
-    // c14
-    zchar[
-	// c15
-  10 
-// c16
-
-  ] 
+    char[0123456789] zchar,
     // c17
-    f32a 
-        // c18
-
-,  
-      // c19
-
-	u64
-// c20
-	pack
-// c21
-	, 
-// c22
-    u16 
-// c23
-pack
-    // c24
-      , 
-      // c25
-  } 
-// c26
- 
+    string crc,
+    // c20
+    char[1] options1,
+    // c25
+    uint8 repeatCount,
+    // c28
+}
+// c29")).
+Eval vm_compute in ("<<<M1247>>>" ++ check (runes_of_ascii "options { LittleEndian // c2a
+  // c2b
+= // c3
+true
+    // c4
+; } root
+    // c7
+packet P // c9a
+  // c9b
+{ repeat char // c12a
+  // c12b
+cs // c13a
+  // c13b
+, // c14a
+  // c14b
+u8
+    // c15
+x
+    // c16
+, // c17
+}
+    // c18
 ")).
-Eval vm_compute in ("<<<M0>>>" ++ check (runes_of_ascii "packet leftPad// trailing space 
-{@tag( 10 )
-    @tag( 007 ) @lengthOf(	a1 )
-// a // b
-//
-repeat metadata
-    ,
-} // " ++ [128512]%N ++ runes_of_ascii " emoji
-options
-    // @lengthOf(
-    { lengthOf
-= """ ++ [128512]%N ++ runes_of_ascii """	;
-}  packet T
-    // " ++ [27880; 37322]%N ++ runes_of_ascii "
-    { A
-{
-//
-// `tick` ""quote"" 'q'
-tag@calculatedFrom(""abc"")
-, }
-    , @lengthOf( matchKey
-    ) string	Header @lengthOf( metadata
-) ,leftPad
-    // trailing space 
-    @calculatedFrom(
-""a\""b"" )`crlf
-line`,}
-")).
-Eval vm_compute in ("<<<M1823>>>" ++ check (runes_of_ascii "packet a1 {
-    @calculatedFrom(""`tick`"")
-    uint32 charz `crlf
-        line`,
-    // c
-    //x
-    a1 `tab	here`,
+Eval vm_compute in ("<<<M1421>>>" ++ check (runes_of_ascii "root packet int {
+    f32a @calculatedFrom(""packet"") `
+    `,
 }
 
 options {
-    // " ++ [27880; 37322]%N ++ runes_of_ascii "
-    // " ++ [128512]%N ++ runes_of_ascii " emoji
-    stringy = 255;
-    metadata = 4294967296
-    pack = string;
-    crc = string;
+    rootA = ""\" ++ [233]%N ++ runes_of_ascii """;
 }
 
-root packet crc {
-    @tag(42)
-    @calculatedFrom(""abc"")
-    @rightPad('0')
-    u128 u8x,
-    @lengthOf(len)
-    uint16 int,
-}")).
-Eval vm_compute in ("<<<M1696>>>" ++ check (runes_of_ascii "
-packet
-
-Foo // " ++ [128512]%N ++ runes_of_ascii " emoji
-	{
-@lengthOf( f32a 
-)
-char[ 
-0123456789	//	t
-  ] float 
-`u8 x,`
-
-, } packet	// a // b
-i64_ 
-{
-
-@lengthOf(
-
-    stringy 	 // packet A { u8 x, }
-    	) 
-char[]int
-@calculatedFrom(
-""{,}"")
-    ,@tag(
-007
-)  //
-      int64
-
-    stringy `" ++ [233]%N ++ runes_of_ascii "` ,char[] A	@calculatedFrom(""\" ++ [233]%N ++ runes_of_ascii """
-
-)
-	`doc`
-	, // " ++ [27880; 37322]%N ++ runes_of_ascii "
-
-  }
-")).
-Eval vm_compute in ("<<<M370>>>" ++ check (runes_of_ascii "  root packet trueish // " ++ [128512]%N ++ runes_of_ascii " emoji
-{ char[] MetaDataX , @leftPad (
+packet i8i8 {
     // trailing space 
-    '0' )match float as
-//x
-// trailing space 
-crc { 0123456789 :// " ++ [27880; 37322]%N ++ runes_of_ascii "
-chars	, ""{,}"" : i8i8,
-}
-, f32a
-    // " ++ [128512]%N ++ runes_of_ascii " emoji
-    f32a `tab	here` ,// " ++ [128512]%N ++ runes_of_ascii " emoji
-@lengthOf( Foo )
-    Packet@calculatedFrom( """ ++ [28040; 24687]%N ++ runes_of_ascii """ ) `it's` , }
-")).
-Eval vm_compute in ("<<<M1856>>>" ++ check (runes_of_ascii "packet MDSnapshotZZ {
-    u8 a,
-}
-
-packet OrderACK {
-    u16 b,
-}
-
-packet HTTPServerInfo {
-    string s,
-}
-
-root packet FIXMsg {
-    u8 KType,
-    MDSnapshotZZ,
-    repeat OrderACK,
-    match KType as Body {
-        1 : HTTPServerInfo,
-        2 : OrderACK,
-    },
+    uint8 uint8x @lengthOf(string_),
+    i32 tag @lengthOf(Logon),
 }")).
-Eval vm_compute in ("<<<M1690>>>" ++ check (runes_of_ascii "packet _x {	repeat
-char[] matchKey	// " ++ [128512]%N ++ runes_of_ascii " emoji
-
-,
-@leftPad ()
-
-x_y_z /// triple
-    T
-,
-
-Pad{
-zchar[	1] rootA 
-`tab	here` 
-,},  Foo 
-@calculatedFrom( """"
-    // trailing space 
-  )
-
-,}  packet	MetaDataX
-    {float64
-
-    body
-, }
-
+Eval vm_compute in ("<<<M309>>>" ++ check (runes_of_ascii "packet
+    // `tick` ""quote"" 'q'
+    _x {//
+repeat zchar[ 1 ] metadata
+    ,@leftPad
+    ( ' ' ) @lengthOf( T )@lengthOf(
+Z9_ )
+    char[] As// @lengthOf(
+,string f32a  , }
 ")).
-Eval vm_compute in ("<<<M1880>>>" ++ check (runes_of_ascii "packet f32a {
-    @rightPad('0')
-    @lengthOf(BodyLength)
-    uint8 Foo ``,
-    //x
-    char[] options1 @calculatedFrom(""it's""),
-    @tag(255)
-    uint64 Header @calculatedFrom(""abc"") `
-        `,
-}")).
-Eval vm_compute in ("<<<M1733>>>" ++ check (runes_of_ascii "packet
-	A { match
+Eval vm_compute in ("<<<M1398>>>" ++ check (runes_of_ascii "
+
+  packet 
+A {
+
+    match
 
     k
+    as n
 
-    as n { [
-
-    ""a"" ,  ""bb""	,
-
-007 ,
-""d""  , ""e""  , 66 ,
-""g""  ,
-""h""  ,  9
+    {
+	[  ""a""
 
 ,
-""j""
+22 ,
 
-    ,
+""c c""
 
-    ""k""
-, 12 ]
-    :B
+,
+    4, ""e""
 
-    , 2
-:
+, 66 
+,
+    ""g""
+
+,
+    8  ,""i""
+
+    ]
+: B
+
+    2:
+
 C
-	}
+} 
 , }
 ")).
-Eval vm_compute in ("<<<M224>>>" ++ check (runes_of_ascii "root packet
-T
-{ zchar[ // a // b
-0123456789
-] // c
-uint8x , }  root packet metadata { @rightPad( )  x_y_z @lengthOf( stringy )
-// `tick` ""quote"" 'q'
-// c
-, }")).
-Eval vm_compute in ("<<<M55>>>" ++ check (runes_of_ascii "MetaData x_y_z
-//x
-//x
-{ int32
-    o
-,zchar[
-65535  ]Packet , i64_ o , i64 o`
-` , } options
-{ x =
-//x
-/// triple
-u8;
-// " ++ [27880; 37322]%N ++ runes_of_ascii "
-// a // b
-} // trailing space ")).
+Eval vm_compute in ("<<<M518>>>" ++ check (runes_of_ascii "packet uint8x
+{ match pack
+    as msg_type	{
+    0123456789 :	float
+}
+,
+} packet //	t
+a1
+    { } options {packetx
+    = '\x00'	; u128 true ""a	b""  ; }
+")).
 Eval vm_compute in ("<<<M526>>>" ++ check (runes_of_ascii "packet uint8x
 { match pack
     as msg_type	{
@@ -792,10 +1070,10 @@ a1
     { } options {packetx
     = '\x00'	; u128= ""a	b""  ; ; }
 ")).
-Eval vm_compute in ("<<<M427>>>" ++ check (runes_of_ascii "packet uint8x
+Eval vm_compute in ("<<<M428>>>" ++ check (runes_of_ascii "packet uint8x
 { match pack
-    as msg_type	0123456789
-    { :	float
+    as msg_type	}
+    0123456789 :	float
 }
 ,
 } packet //	t
@@ -803,26 +1081,26 @@ a1
     { } options {packetx
     = '\x00'	; u128= ""a	b""  ; }
 ")).
-Eval vm_compute in ("<<<M445>>>" ++ check (runes_of_ascii "packet uint8x
+Eval vm_compute in ("<<<M450>>>" ++ check (runes_of_ascii "packet uint8x
 { match pack
     as msg_type	{
     0123456789 :	float
+}
 
-,
 } packet //	t
 a1
     { } options {packetx
     = '\x00'	; u128= ""a	b""  ; }
 ")).
-Eval vm_compute in ("<<<M410>>>" ++ check (runes_of_ascii "packet uint8x
-{ match 
+Eval vm_compute in ("<<<M493>>>" ++ check (runes_of_ascii "packet uint8x
+{ match pack
     as msg_type	{
     0123456789 :	float
 }
 ,
 } packet //	t
 a1
-    { } options {packetx
+    { } options {f64
     = '\x00'	; u128= ""a	b""  ; }
 ")).
 Eval vm_compute in ("<<<M664>>>" ++ check (runes_of_ascii "// @lengthOf(
@@ -833,204 +1111,231 @@ crc //x
 = ""abc"" ;
     msg_type =
 i16 }")).
-Eval vm_compute in ("<<<M663>>>" ++ check (runes_of_ascii "// @lengthOf(
-packet i8i8 { u128 o , }
+Eval vm_compute in ("<<<M699>>>" ++ check (runes_of_ascii "// @lengthOf(
+packet i8i8 { a" ++ [769]%N ++ runes_of_ascii "b o , }
 options { MetaDataX = true;
     BodyLength =""packet"" x_y_z= 007
 crc //x
 = ""abc"" ;
     msg_type =
-i16 ")).
-Eval vm_compute in ("<<<M519>>>" ++ check (runes_of_ascii "packet uint8x
+i16 }")).
+Eval vm_compute in ("<<<M1831>>>" ++ check (runes_of_ascii "  packet
+    A
+    {
+
+match 
+k as
+    n
+{
+
+[ ""a""  ,
+
+""bb""
+    ,
+	007
+
+    , ""d""
+	,
+""e""
+,66
+,	""g""
+
+,
+""h"" ]
+
+    :
+B
+
+, 2
+:C }
+, }
+")).
+Eval vm_compute in ("<<<M1450>>>" ++ check (runes_of_ascii "MetaData leftPad {
+    // c
+    chars MetaDataX,
+}
+
+packet repeatCount {
+    char[255] uint8x `" ++ [233]%N ++ runes_of_ascii "`,
+}
+
+MetaData pack {
+    As Foo,
+}")).
+Eval vm_compute in ("<<<M1390>>>" ++ check (runes_of_ascii "MetaData leftPad {
+    chars MetaDataX,
+}
+
+packet repeatCount {
+    char[255] uint8x `" ++ [233]%N ++ runes_of_ascii "`,
+}
+
+MetaData pack {
+    As Foo,
+}")).
+Eval vm_compute in ("<<<M1153>>>" ++ check (runes_of_ascii "MetaData leftPad { chars MetaDataX , // c
+} packet repeatCount { char[ 255 ] uint8x `" ++ [233]%N ++ runes_of_ascii "` , } MetaData pack { As Foo , }")).
+Eval vm_compute in ("<<<M1185>>>" ++ check (runes_of_ascii "MetaData leftPad { chars MetaDataX , } packet repeatCount { char[ 255 ] uint8x `" ++ [233]%N ++ runes_of_ascii "` , } MetaData pack { As Foo // c
+, }")).
+Eval vm_compute in ("<<<M914>>>" ++ check (runes_of_ascii "packet A {
+  match k as n {
+    [""a"", ""bb"", 007, ""d"", ""e"", 66, ""g"", ""h"", 9, ""j"", ""k"", 12] : B,
+    2 : C
+  },
+}")).
+Eval vm_compute in ("<<<M1400>>>" ++ check (runes_of_ascii "packet A
+	{
+	match	k
+
+as n{[  ""a""  , ""bb"" ,
+	""c c""
+,
+""d""	,""e"",
+
+""f""
+,
+""g""
+] : 
+B
+
+,
+2 : C
+}
+,
+
+    }")).
+Eval vm_compute in ("<<<M1902>>>" ++ check (runes_of_ascii "
+root
+
+    packet
+SimpleMessage {uint16	MsgType
+	`" ++ [28040; 24687; 31867; 22411]%N ++ runes_of_ascii "`
+,string
+	JsonBody`Json" ++ [23383; 31526; 20018; 28040; 24687; 20307]%N ++ runes_of_ascii "`
+
+,
+
+    }")).
+Eval vm_compute in ("<<<M855>>>" ++ check (runes_of_ascii "packet A {
+  match k as n {
+    [""a"", ""bb"", ""c c"", ""d"", ""e"", ""f"", ""g"", ""h""] : B
+    2 : C
+  },
+}")).
+Eval vm_compute in ("<<<M1559>>>" ++ check (runes_of_ascii "packet A {
+    match k as n {
+        [""a"", ""bb"", 007, ""d"", ""e""] : B,
+        2 : C,
+    },
+}")).
+Eval vm_compute in ("<<<M631>>>" ++ check (runes_of_ascii "
+packet
+    asx {match u128 as lengthOf
+{
+//	t
+// `tick` ""quote"" 'q'
+255 %: x ,
+    } ,	}")).
+Eval vm_compute in ("<<<M878>>>" ++ check (runes_of_ascii "packet A {
+  match k as n {
+    [1, 22, 007, 4, 5, 66, 7, 8, 9, 10] : B,
+    2 : C
+  },
+}")).
+Eval vm_compute in ("<<<M1404>>>" ++ check (runes_of_ascii "packet A {
+    match k as n {
+        [""a"", 22, ""c c"", 4] : B,
+        2 : C,
+    },
+}")).
+Eval vm_compute in ("<<<M469>>>" ++ check (runes_of_ascii "packet uint8x
 { match pack
     as msg_type	{
     0123456789 :	float
 }
 ,
-} packet //	t
-a1
-    { } options {packetx
-    = '\x00'	; u128")).
-Eval vm_compute in ("<<<M1746>>>" ++ check (runes_of_ascii "
-packet
-
-    A { u16 len@lengthOf(
-body
-) `a
-    b
-  c`
-
-, u32
-crc @calculatedFrom( ""CRC32"" )	`a
-    b
-  c` 
-,string
-
-body
-
-,}
-
-")).
-Eval vm_compute in ("<<<M34>>>" ++ check (runes_of_ascii "options {
-Logon = 0 } options { msg_type = 3
-    MetaDataX =
-    // " ++ [128512]%N ++ runes_of_ascii " emoji
-    int8
-    uint8x=""""
-    ;
-    As = '0' }")).
-Eval vm_compute in ("<<<M1165>>>" ++ check (runes_of_ascii "MetaData leftPad { chars MetaDataX , } packet repeatCount { char[ 255 // c
-] uint8x `" ++ [233]%N ++ runes_of_ascii "` , } MetaData pack { As Foo , }")).
-Eval vm_compute in ("<<<M907>>>" ++ check (runes_of_ascii "packet A {
+} packet")).
+Eval vm_compute in ("<<<M835>>>" ++ check (runes_of_ascii "packet A {
   match k as n {
-    [""a"", ""bb"", ""c c"", ""d"", ""e"", ""f"", ""g"", ""h"", ""i"", ""j"", ""k"", ""l""] : B
+    [1, 22, ""c c"", 4, 5, ""f""] : B
     2 : C
   },
 }")).
-Eval vm_compute in ("<<<M315>>>" ++ check (runes_of_ascii "packet Foo{ tag roots ,
-    // `tick` ""quote"" 'q'
-    i64_, @calculatedFrom( ""packet"" ) uint32 MetaDataX
-, }
+Eval vm_compute in ("<<<M1249>>>" ++ check (runes_of_ascii "packet Inner {
+    u8 a,
+}
+root packet P {
+    Inner ref_obj,
+    u8 x,
+}
 ")).
-Eval vm_compute in ("<<<M931>>>" ++ check (runes_of_ascii "packet A {
-    u16 len @lengthOf(body) `
-`,
-    u32 crc @calculatedFrom(""CRC32"") `
-`,
-    string body,
-}")).
-Eval vm_compute in ("<<<M884>>>" ++ check (runes_of_ascii "packet A {
+Eval vm_compute in ("<<<M797>>>" ++ check (runes_of_ascii "packet A {
   match k as n {
-    [""a"", 22, ""c c"", 4, ""e"", 66, ""g"", 8, ""i"", 10] : B,
+    [""a"", ""bb"", 007] : B,
     2 : C
   },
 }")).
-Eval vm_compute in ("<<<M1>>>" ++ check (runes_of_ascii "MetaData  crc {  Pad T
-, zchar[
-    0123456789
-    ] a1 ,int8 trueish// c
-, } packet float{ }
-")).
-Eval vm_compute in ("<<<M841>>>" ++ check (runes_of_ascii "packet A {
-  match k as n {
-    [""a"", ""bb"", ""c c"", ""d"", ""e"", ""f"", ""g""] : B,
-    2 : C
-  },
-}")).
-Eval vm_compute in ("<<<M644>>>" ++ check (runes_of_ascii "
-packet
-    asx {match u128 as lengthOf
-{
-//	t
-// `tick` ""quote"" 'q'
-255 : x" ++ [178]%N ++ runes_of_ascii " ,
-    } ,	}")).
-Eval vm_compute in ("<<<M607>>>" ++ check (runes_of_ascii "
-packet
-    asx {match u128 as lengthOf
-{
-//	t
-// `tick` ""quote"" 'q'
-255 : x 
-    } ,	}")).
-Eval vm_compute in ("<<<M865>>>" ++ check (runes_of_ascii "packet A {
-  match k as n {
-    [1, 22, 007, 4, 5, 66, 7, 8, 9] : B,
-    2 : C
-  },
-}")).
-Eval vm_compute in ("<<<M1482>>>" ++ check (runes_of_ascii "  packet roots{
-    }MetaData
-
-metadata
-    {
-	asx 
-matchKey,uint64
-rootA
-    ,
-
-}")).
-Eval vm_compute in ("<<<M1251>>>" ++ check (runes_of_ascii "packet
-Inner
-	{u8	a 
-,
-} root
-	packet 
-P
-{ Inner	ref_obj,  u8	x
-,
-
-    }
-
-")).
-Eval vm_compute in ("<<<M1483>>>" ++ check (runes_of_ascii "
-
-  packet
-    A
-    {match k
-
-    as
-n	{[
-""a""
-	]	: 
-B
-	,
-2 
-:	C  } ,	}
-")).
-Eval vm_compute in ("<<<M42>>>" ++ check (runes_of_ascii "
-packet roots
-    { len leftPad `// not a comment`	,} packet packetx{}")).
-Eval vm_compute in ("<<<M1438>>>" ++ check (runes_of_ascii "root packet P {
+Eval vm_compute in ("<<<M1671>>>" ++ check (runes_of_ascii "root packet P {
     u16 a,
     u32 Sum @calculatedFrom(""CRC32""),
 }")).
-Eval vm_compute in ("<<<M2>>>" ++ check (runes_of_ascii "root
-// trailing space 
-// " ++ [27880; 37322]%N ++ runes_of_ascii "
-packet
-u{  } // trailing space ")).
-Eval vm_compute in ("<<<M930>>>" ++ check (runes_of_ascii "packet A {
-    B b `
-`,
-    B `
-`,
-    repeat B bs `
-`,
+Eval vm_compute in ("<<<M939>>>" ++ check (runes_of_ascii "MetaData M {
+    u8 x `a
+    b
+  c`,
+    T t `a
+    b
+  c`,
 }")).
-Eval vm_compute in ("<<<M1199>>>" ++ check (runes_of_ascii "packet // c
-body { i32 f32a `{ , }` , } options { }")).
-Eval vm_compute in ("<<<M654>>>" ++ check (runes_of_ascii "// @lengthOf(
-packet i8i8 { u128 o , }
-options {")).
-Eval vm_compute in ("<<<M212>>>" ++ check (runes_of_ascii "packet
-    MetaDataX {i16 u128`" ++ [233]%N ++ runes_of_ascii "` , //x
+Eval vm_compute in ("<<<M1097>>>" ++ check (runes_of_ascii "packet A {
+    match k as n {
+        1 : B,// c
+    },
 }")).
-Eval vm_compute in ("<<<M325>>>" ++ check (runes_of_ascii "packet charz { } // packet A { u8 x, }")).
-Eval vm_compute in ("<<<M1916>>>" ++ check (runes_of_ascii "packet
+Eval vm_compute in ("<<<M1197>>>" ++ check (runes_of_ascii "// c
+packet body { i32 f32a `{ , }` , } options { }")).
+Eval vm_compute in ("<<<M1710>>>" ++ check (runes_of_ascii "  options
+{ a
+    =
 
-A{ u8
-
-x `d `
-,	// c 
-
-	}
+1 // c
+	b =2 ; 	 // d
+    }
 ")).
-Eval vm_compute in ("<<<M988>>>" ++ check (runes_of_ascii "packet A {
- u8 x `d" ++ [160]%N ++ runes_of_ascii "`, // c" ++ [160]%N ++ runes_of_ascii "
-}")).
-Eval vm_compute in ("<<<M655>>>" ++ check (runes_of_ascii "// @lengthOf(
-packet i8i8 {")).
-Eval vm_compute in ("<<<M286>>>" ++ check (runes_of_ascii " // `tick` ""quote"" 'q'")).
-Eval vm_compute in ("<<<M20>>>" ++ check (runes_of_ascii "packet MetaDataX { }")).
-Eval vm_compute in ("<<<M981>>>" ++ check (runes_of_ascii "packet A {
+Eval vm_compute in ("<<<M233>>>" ++ check (runes_of_ascii "MetaData _x { i64 u128	, Packet Header, } 	 ")).
+Eval vm_compute in ("<<<M1451>>>" ++ check (runes_of_ascii "packet	A  {@tag(	// a
+    	1)
+u8 x
+	,
+} ")).
+Eval vm_compute in ("<<<M1573>>>" ++ check (runes_of_ascii "// top
+packet x {
+    // c2
 }
-// c" ++ [12288]%N)).
-Eval vm_compute in ("<<<M1074>>>" ++ check (runes_of_ascii "MetaData M {
-}// c")).
-Eval vm_compute in ("<<<M1228>>>" ++ check (runes_of_ascii "packet x // c
-{ }")).
-Eval vm_compute in ("<<<M1738>>>" ++ check (runes_of_ascii "packet As {
+// c3")).
+Eval vm_compute in ("<<<M766>>>" ++ check (runes_of_ascii "Dr1UAAa-*U|u3S?xE-Vr&9^'H>gI<.E")).
+Eval vm_compute in ("<<<M1936>>>" ++ check (runes_of_ascii "
+
+  MetaData 
+// c
+u
+    { } ")).
+Eval vm_compute in ("<<<M1080>>>" ++ check (runes_of_ascii "options { a = 1 // a
+ ; }")).
+Eval vm_compute in ("<<<M1069>>>" ++ check (runes_of_ascii "// a// bpacket A {}")).
+Eval vm_compute in ("<<<M1128>>>" ++ check (runes_of_ascii "// c
+MetaData u { }")).
+Eval vm_compute in ("<<<M1017>>>" ++ check (runes_of_ascii "// c" ++ [8233]%N ++ runes_of_ascii "
+packet A {
 }")).
-Eval vm_compute in ("<<<M1015>>>" ++ check (runes_of_ascii "// c" ++ [8233]%N)).
-Eval vm_compute in ("<<<M735>>>" ++ check ([0]%N)).
+Eval vm_compute in ("<<<M994>>>" ++ check (runes_of_ascii "packet A {
+}// c" ++ [5760]%N)).
+Eval vm_compute in ("<<<M46>>>" ++ check (runes_of_ascii "//x
+
+// a // b
+")).
+Eval vm_compute in ("<<<M1399>>>" ++ check (runes_of_ascii "
+// c" ++ [8192]%N ++ runes_of_ascii "
+")).
+Eval vm_compute in ("<<<M726>>>" ++ check (runes_of_ascii "
+	 ")).
